@@ -6,7 +6,7 @@ import vlib
 
 
 def strings(chk, tier):
-    cfg = "MC_C07_" + tier
+    cfg = "MC_C07_thorough"   # the full instance set is cheap enough for every run
     res = vlib.run_tlc("MC_C07", cfg, workers=16, timeout=2400, tag=cfg, xmx="8g")
     if res.violated:
         chk.model_violation(res, cfg + ":" + res.violated)
